@@ -55,7 +55,7 @@ def make_doc(rng):
 
 
 def generate(rng, tier):
-    ndefs = 30 if tier == "quick" else 2000
+    ndefs = 70 if tier == "quick" else 2000
     made = 0
     attempts = 0
     while made < ndefs and attempts < ndefs * 3:
